@@ -392,6 +392,13 @@ structure WfSys (s : Sys) : Prop where
   contig : Contig s.db.uploads
   nodup : s.db.uploads.Nodup
 
+/-- the part of the invariant that does not speak about numbering (kept by ReplaceUpload of any id) -/
+structure WfCore (s : Sys) : Prop where
+  recs : ∀ row ∈ s.db.records, row.up ∈ s.db.uploads
+  files : ∀ e ∈ s.fs, e.1.up ∈ s.db.uploads
+
+theorem WfSys.core {s : Sys} (w : WfSys s) : WfCore s := ⟨w.recs, w.files⟩
+
 theorem WfSys.empty : WfSys {} :=
   ⟨by simp, by simp, by intro k hk; simp at hk, by simp⟩
 
@@ -658,7 +665,7 @@ structure FailedPost (s : Sys) (o : Outcome) : Prop where
   /-- anything new in the store belongs to the failed upload's own id -/
   files_new : ∀ x ∈ o.sys.fs, x ∈ s.fs ∨ o.alloc = some x.1.up
 
-theorem failed_post (env : Env) (req : Req) (s : Sys) (w : WfSys s) (e : Err)
+theorem failed_post (env : Env) (req : Req) (s : Sys) (w : WfCore s) (e : Err)
     (h : (processUpload env req s).resp = .error e) : FailedPost s (processUpload env req s) := by
   rcases processUpload_cases env req s with ⟨e', h'⟩ | ⟨t, t', _, _, _, _, h'⟩
   · rw [h']
@@ -1310,7 +1317,7 @@ theorem results_none_of (rows : List RRow) (k : UKey) (h : ∀ row ∈ rows, row
   obtain ⟨row, hrow, _, _, rfl⟩ := hx
   simpa using h row hrow
 
-theorem success_records (env : Env) (req : Req) (s : Sys) (w : WfSys s) (k : UKey) (fids : List Path)
+theorem success_records (env : Env) (req : Req) (s : Sys) (w : WfCore s) (k : UKey) (fids : List Path)
     (h : (processUpload env req s).resp = .ok (k, fids)) :
     ((processUpload env req s).sys.db.queryUpload k).map (·.2) = partsLines req.parts ∧
       k ∉ s.db.uploads ∧ (processUpload env req s).alloc = some k := by
